@@ -88,6 +88,10 @@ func runC20(r *simkit.Run) {
 	memberOf2 := c.Chance(700, "member-of-set-2")
 	for _, kci := range []int32{1, 2} {
 		ks := []string{shdb.EncodeAddress(other.Addr), shdb.EncodeAddress(me.Addr)}
+		if c.Bool("own-index-first") {
+			// the node's position in the set is a choice (first, last)
+			ks = []string{shdb.EncodeAddress(me.Addr), shdb.EncodeAddress(other.Addr)}
+		}
 		if kci == 2 && !memberOf2 {
 			ks = []string{shdb.EncodeAddress(other.Addr), shdb.EncodeAddress(simtm.DetKey("keyper-2").Addr)}
 		}
